@@ -211,7 +211,7 @@ class State:
     def __init__(s, alg):
         s.alg = alg; s.ARR = z3.ArraySort(I, alg.sort)
         s.heap = {}; s.env = {}; s.assume = []; s.oblig = []; s.reg = SumReg(alg); s.fresh = 0; s.written = set()
-        s.lemma_depth = 1; s.initial = {}; s.axioms = ()
+        s.lemma_depth = 1; s.initial = {}; s.axioms = (); s.callee_log = []
     def add_oblig(s, name, goal, kind='vc'):
         if z3.is_true(z3.simplify(goal)) if z3.is_expr(goal) else goal is True:
             s.oblig.append(Obligation(name, z3.BoolVal(True), [], 0, kind)); return
@@ -883,14 +883,14 @@ class Exec:
         g0 = inv(self, first, True)
         st.add_oblig('loop%d invariant on entry' % k, z3.Implies(nonempty, g0))
         # dry run to find written bases / assigned names
-        saved = (dict(st.heap), dict(st.env), len(st.oblig), list(st.assume), set(st.written), st.reg.n, list(st.reg.terms), self.loopno, list(self.branch_conds))
+        saved = (dict(st.heap), dict(st.env), len(st.oblig), list(st.assume), set(st.written), st.reg.n, list(st.reg.terms), self.loopno, list(self.branch_conds), len(st.callee_log))
         st.written = set(); st.env[var] = IntV(z3.Int(var + '!dry%d' % k)); st.assume = saved[3] + [lo <= st.env[var].t, st.env[var].t < hi]
         try: self.block(s.body)
         finally:
             wr = set(b for b in st.written if b in saved[0]); env_after = st.env
             changed = [nm for nm in saved[1] if nm != var and env_after.get(nm) is not saved[1][nm]]
             st.heap, st.env = saved[0], saved[1]; del st.oblig[saved[2]:]; st.assume = saved[3]; st.written = saved[4]
-            st.reg.n = saved[5]; st.reg.terms = saved[6]; self.loopno = saved[7]; self.branch_conds = saved[8]
+            st.reg.n = saved[5]; st.reg.terms = saved[6]; self.loopno = saved[7]; self.branch_conds = saved[8]; del st.callee_log[saved[9]:]
         carried = [nm for nm in changed if isinstance(saved[1][nm], (IntV, Cell))]
         base_assume = list(st.assume)
         v = z3.Int('%s!%d' % (var, k))
@@ -1004,6 +1004,15 @@ def sum_facts(ob, reg, alg, depth=1, pair_timeout_ms=None):
     equalities between records whose summands agree under a shift or a reversal -- each established by its own small
     query under the obligation's assumptions (the skolemised form of the congruence lemma)."""
     only = _sum_consts(list(ob.assume) + [ob.goal])
+    # close under "occurs in the summand (or at the end points) of a relevant record"
+    changed = True; probe = z3.Int('i!rel')
+    while changed:
+        changed = False
+        for (c, lo, hi, f) in reg.terms[:ob.nsums]:
+            if c.decl().name() in only:
+                try: more = _sum_consts([f(probe), f(lo), f(hi)])
+                except Undecided: more = set()
+                if not more <= only: only |= more; changed = True
     base = [r for r in reg.terms[:ob.nsums] if r[0].decl().name() in only]
     if not base: return []
     n0 = reg.n; out = []; allrec = list(base); layer = base
@@ -1039,19 +1048,23 @@ def discharge(ob, reg, alg, timeout_ms=20000, extra=(), depth=1, seed=0, pair_ti
     if z3.is_true(ob.goal): return 'unsat', 0.0, 'trivial'
     t = time.time()
     base = list(ob.assume) + list(ob.axioms) + list(extra)
-    goals = _split_goal(ob.goal)
+    goals = []
+    for g in _split_goal(ob.goal):
+        ante = []
+        while z3.is_implies(g): ante.append(g.arg(0)); g = g.arg(1)           # antecedents of the goal become hypotheses
+        goals.append((ante, g))
     # fast path: many obligations (index bounds, frames, entry conditions) need no Sum reasoning at all
     pending = []
-    for g in goals:
-        v, w = _check(base, g, 1500 if ob.nsums else timeout_ms, seed)
-        if v != 'unsat': pending.append((g, v, w))
+    for (ante, g) in goals:
+        v, w = _check(base + ante, g, 1500 if ob.nsums else timeout_ms, seed)
+        if v != 'unsat': pending.append((ante, g, v, w))
     if not pending: return 'unsat', time.time() - t, ''
-    if not ob.nsums: return pending[0][1], time.time() - t, pending[0][2]
-    facts = sum_facts(ob, reg, alg, depth, pair_timeout_ms)
-    ctx = base + facts
+    if not ob.nsums: return pending[0][2], time.time() - t, pending[0][3]
     verdict, why = 'unsat', ''
-    for (g, _, _) in pending:
-        v, w = _check(ctx, g, timeout_ms, seed)
+    for (ante, g, _, _) in pending:
+        ob2 = Obligation(ob.name, g, list(ob.assume) + ante, ob.nsums, ob.kind, ob.axioms)
+        facts = sum_facts(ob2, reg, alg, depth, pair_timeout_ms)
+        v, w = _check(base + ante + facts, g, timeout_ms, seed)
         if v != 'unsat':
             verdict, why = v, w
             break
